@@ -41,6 +41,8 @@ mod wire_mon;
 mod refexpand;
 mod convert_mon;
 mod load_mon;
+mod roundtrip_mon;
+mod devices_mon;
 
 use std::collections::HashMap;
 
@@ -68,6 +70,8 @@ fn main() {
     "wire" => wire_mon::run(&opts),
     "convert" => convert_mon::run(&opts),
     "load" => load_mon::run(&opts),
+    "roundtrip" => roundtrip_mon::run(&opts),
+    "devices" => devices_mon::run(&opts),
     "replay" => common::replay(&opts),
     "merge" => common::merge_distinct(&args[2..].to_vec()),
     _ => usage()
